@@ -26,24 +26,41 @@ def histories(ctx, depth):
     return out
 
 
-def to_scenario(sid, i, hist, ver, rng):
+def to_scenario(sid, i, hist, ver, rng, persist=""):
     exp = {"expiry": 1000} if ver == 5 else {}
     steps = [scen.connect(1, "sub", 5), scen.sub(1, [{"n": "q/#", "qos": 2}]),
              scen.connect(2, "pubr", ver, clean=True, nosentinel=True, **exp)]
     k = 2
+    # an MQTT 5 publisher may name the topic through an alias: the first PUBLISH of a connection (a retransmission with
+    # DUP = 1 included) binds it, the later ones carry the alias alone
+    usealias = ver == 5 and rng.random() < 0.5
+    bound = False
+
+    def al():
+        nonlocal bound
+        if not usealias:
+            return {}
+        if bound:
+            return {"alias": 1, "notopic": True}
+        bound = True
+        return {"alias": 1}
     for op in hist:
         if op["op"] == "pub2":
-            steps.append(scen.pub(k, "q/m", 2, "L%d" % op["msg"], pid=op["id"], dup=op["dup"], norel=True))
+            steps.append(scen.pub(k, "q/m", 2, "L%d" % op["msg"], pid=op["id"], dup=op["dup"], norel=True, **al()))
         elif op["op"] == "rel":
             steps.append({"op": "ack", "k": k, "t": "pubrel", "pid": op["id"]})
         elif op["op"] == "pub1":
-            steps.append(scen.pub(k, "q/m", 1, "L%d" % op["msg"], pid=10 + op["id"]))
+            steps.append(scen.pub(k, "q/m", 1, "L%d" % op["msg"], pid=10 + op["id"], **al()))
         elif op["op"] == "reconnect":
             steps.append({"op": "abort" if rng.random() < 0.5 else "disconnect", "k": k})
             k += 1
+            bound = False
             steps.append(scen.connect(k, "pubr", ver, clean=op["dup"], nosentinel=True, **exp))
         steps.append(scen.BARRIER)
-    return {"id": "%s-h%d" % (sid, i), "cfg": {"mode": "overlap", "qq0": True}, "steps": steps, "hist": hist}
+    cfg = {"mode": "overlap", "qq0": True}
+    if persist:
+        cfg["persist"] = persist
+    return {"id": "%s-h%d%s" % (sid, i, persist[:1]), "cfg": cfg, "steps": steps, "hist": hist}
 
 
 def run(ctx):
@@ -56,9 +73,13 @@ def run(ctx):
         hs = rng.sample(hs, min(len(hs), 500))
     # longer seeded histories from the same alphabet (ids interleaved, reuse) as random walks of the model's actions
     scs = [to_scenario("s%d" % ctx.seed, i, h, rng.choice([4, 5]), rng) for i, h in enumerate(hs)]
+    # the same histories on a broker whose persistence is redis (the in-process RESP server): the identifiers awaiting PUBREL
+    # then live in the redis-backed unack store
+    rs = rng.sample(hs, min(len(hs), 150 if quick else 2000))
+    scs += [to_scenario("s%d" % ctx.seed, i, h, rng.choice([4, 5]), rng, persist="redis") for i, h in enumerate(rs)]
     ctx.cov["rule"] = ("TLC enumerates every history of length %d over {PUBLISH q2 (id, dup), PUBREL(id), PUBLISH q1, reconnect(clean)} x ids {1,2} "
                        "(Inbound.tla, invariants ExactlyOnce/AckPairing checked on all of them); %s are replayed on a real broker (v3.1.1 / v5 "
-                       "publisher, independent QoS2 subscriber, barrier after every step) and each trace is validated against Broker.tla; "
+                       "publisher - half of the v5 ones naming the topic through an alias -, independent QoS2 subscriber, barrier after every step; a sample again with persistence = redis over the RESP fake) and each trace is validated against Broker.tla; "
                        "non-trivial = the history contains a QoS2 retransmission, an id reuse or a reconnect" % (depth, "a seeded sample of 500" if quick else "all"))
     nontriv = sum(1 for h in hs if any(o["op"] == "reconnect" or (o["op"] == "pub2" and not o["new"]) for o in h))
     rejected, stats = trace_lib.validate(ctx, scs, "c04", invariants=INV)
